@@ -238,6 +238,8 @@ class StreamEnd:
         data = bytes(self.out[self.taken:])
         self.taken = len(self.out)
         recs = []
+        if not data:
+            return recs
         for part in data.split(b"\n")[:-1] if data.endswith(b"\n") else data.split(b"\n"):
             try:
                 rec = parse_write(part.decode("utf-8") + "\n")
